@@ -45,6 +45,15 @@ def check_main(ctx, p, model, seen):
     if got != p:
         ctx.violation("name-states-parameters", inp, {"name": names[0], "parsed": got})
         return
+    # the flag in the name is the flag the board was generated with: a down-only tile ('v') in every row of the
+    # depicted board exactly when the name ends in _force_down (boards without force-down never contain one)
+    text = r["files"][names[0]]
+    rows = [ln for ln in text.split("\n")[:p["l"] + 4] if ln.startswith("#   [")]
+    if len(rows) == p["l"]:
+        has_down = [("|v(" in ln) for ln in rows]
+        if (p["fd"] and not all(has_down)) or (not p["fd"] and any(has_down)):
+            ctx.violation("name-states-parameters", inp, {"name": names[0], "board_rows": rows[:6], "force_down_in_name": p["fd"]})
+            return
     key = names[0]
     if key in seen and seen[key] != p:
         ctx.violation("names-distinct", inp, {"name": key, "other": seen[key]})
@@ -106,6 +115,9 @@ def run(ctx, model=None):
              "m": rng.choice([1, 2, 6, 11]), "rb": rng.choice(ks), "lb": rng.choice(ks), "tb": rng.choice(ks),
              "lt": rng.choice(ks), "fd": rng.random() < 0.5}
         check_main(ctx, p, model, seen)
+    for w_, l_ in ((1, 3), (1, 1), (2, 2), (3, 1)):
+        check_main(ctx, dict(base, w=w_, l=l_, fd=True, seed=11), model, seen)
+        check_main(ctx, dict(base, w=w_, l=l_, fd=False, seed=11), model, seen)
     for m_ in (53, 54, 100, 1000):
         check_main(ctx, dict(base, m=m_, w=1, l=1), model, seen)
     for big in (2 ** 53 + 1, 12345678901234567891, 2 ** 64 + 3):
